@@ -227,43 +227,21 @@ def r2_who(ctx):
         r.inst("RegisterCtx::provide_context", "a new empty map per call (per rendered request)")
     else:
         r.viol("R2:RegisterCtx::provide_context", "the registry is not created fresh per context: %s" % (got,), file=F)
-    # generated code
-    fn = ctx.ast.fn(ML, "create_locale_type_inner")
-    if fn is None:
-        r.missing("create_locale_type_inner")
-        return r
-    regs = []
-    for q in xquotes(fn.body, also_plain=False):
-        tt = flat(tok_text(q["tokens"]))
-        if "TranslationUnit>::register()" in tt:
-            regs.append(tt)
-    if len(regs) == 1 and regs[0].startswith("pubfnget_translations()->&'static[&'staticstr;#strings_count]{<Selfasl_i18n_crate::__private::fetch_translations::TranslationUnit>::register();<Selfasl_i18n_crate::__private::fetch_translations::TranslationUnit>::STRINGS}"):
-        r.inst("generated get_translations() (dynamic_load+ssr)", "register(); then STRINGS - the unit registers itself when (and only when) its table is read")
-    else:
-        r.viol("R2:template#register", "register() appears in %d generated templates (expected only in get_translations of the dynamic_load+ssr branch)" % len(regs), file=fn.file, line=fn.line)
-    t = flatp(show(fn.body))
-    if has(t, 'elseifcfg!allfeature="dynamic_load",feature="ssr"{quote!pubfnget_translations') or has(t, 'elseifcfg!allfeature="dynamic_load",feature="ssr"{quote!{pubfnget_translations'):
-        r.inst("template branch", "guarded by cfg!(all(dynamic_load, ssr))")
-    else:
-        r.viol("R2:template#branch", "the registering accessor is not limited to dynamic_load+ssr", file=fn.file, line=fn.line)
-    # the per-locale table accessors the generated code reads through are pure forwarders to their own unit's get_translations():
-    # anything else in them (a process-wide cache, a call to another unit's get_translations) registers too little or too much
+    # generated code: create_locale_type_inner evaluated (rules/absint.py) for two locales (one hyphenated) in three configurations and
+    # read back - with dynamic_load + ssr every unit's `get_translations` registers the unit and then hands out its own table, and that is
+    # the only place `register()` is generated; the per-locale accessors the rest of the generated code reads through only forward to
+    # their own unit (a cache there would register once per process, a call to another unit would register what the request did not use)
+    _r2_generated(ctx, r)
+    # (the evaluation above has no key that one locale takes from another; for that case the accessor templates themselves are read:
+    # any template that is recognisably a table accessor must have one of the forwarding bodies - no floor on how many there are)
     fn_gen = ctx.ast.fn(ML, "create_locale_type_inner")
-    accs = []
     for q in xquotes(fn_gen.body, also_plain=False) if fn_gen else []:
         tt = flat(tok_text(q["tokens"]))
         m_ = re.match(r"^pub(?:const|async)?fn#accessor_ident\(\)->&'static\[(?:&'staticstr|Box<str>);#strings_count\]\{(.*)\}$", tt)
-        if m_:
-            accs.append(m_.group(1))
-    allowed = {"#string_holder::get_translations()", "#string_holder::get_translations().await", "super::super::#parent::#accessor_ident()", "super::super::#parent::#accessor_ident().await"}
-    odd = [a for a in accs if a not in allowed]
-    if len(accs) < 4:
-        r.viol("R2:template#accessors", "only %d table accessor templates were found in create_locale_type_inner (6 on the pinned tree)" % len(accs), file=ML)
-    elif odd:
-        r.viol("R2:template#accessor-body", "a generated table accessor does more than forward to its own unit's get_translations(): `%s` - a cache makes the unit register once per process, a call to "
-               "another unit registers units the request did not use" % odd[0][:200], file=ML, line=fn_gen.line)
-    else:
-        r.inst("generated table accessors", "%d templates: each only forwards to its own unit's get_translations() (or to the parent group's accessor)" % len(accs))
+        if m_ and m_.group(1) not in {"#string_holder::get_translations()", "#string_holder::get_translations().await", "super::super::#parent::#accessor_ident()", "super::super::#parent::#accessor_ident().await"}:
+            r.viol("R2:template#accessor-body", "a generated table accessor does more than forward to its own unit's get_translations(): `%s` - a cache makes the unit register once per process, a call to "
+                   "another unit registers units the request did not use" % m_.group(1)[:200], file=ML, line=fn_gen.line)
+            break
     fn = ctx.ast.fn("leptos_i18n/src/context.rs", "embed_translations_fn")
     t = flatp(show(fn.body)) if fn else ""
     if has(t, "lettranslations=reg_ctx.to_array;view!<scriptinner_html=translations/>"):
@@ -271,6 +249,62 @@ def r2_who(ctx):
     else:
         r.viol("R2:embed_translations_fn", "is `%s`" % t, file="leptos_i18n/src/context.rs")
     return r
+
+
+def _r2_generated(ctx, r):
+    from rules import absint
+    from rules.absint import AEval, A, C, CF, L, TOK, I
+    fn = ctx.ast.fn(ML, "create_locale_type_inner")
+    if fn is None:
+        r.missing("create_locale_type_inner")
+        return
+    absint.set_program(ctx.ast)
+    S = lambda x: ("str", x)  # noqa: E731
+    K = lambda n: CF("Key", name=S(n), ident=TOK(n.replace("-", "_")))  # noqa: E731
+
+    def loc(n, k):
+        return CF("Locale", name=K(n), top_locale_name=K(n), keys=L(), strings=L(*[S("s%d" % i) for i in range(k)]), top_locale_string_count=I(k))
+    locs = [("en", 2), ("pt-BR", 1)]
+    TU = "< Self as l_i18n_crate :: __private :: fetch_translations :: TranslationUnit >"
+    try:
+        for label, feats in (("baked", set()), ("dynamic_load + ssr", {"dynamic_load", "ssr"}), ("dynamic_load + csr", {"dynamic_load", "csr"})):
+            ev = AEval(funcs=absint.file_funcs(ctx.ast, ML), consts={"IS_TOP": ("bool", True)})
+            ev.cfg_raw = lambda t, feats=feats: absint.cfg_eval(t, feats)
+            ev.builtins.update({"unwrap_at": lambda rv, a: rv[2][0] if rv[0] == "ctor" and rv[2] else rv})
+            ev.path_builtins = {"Key::new": lambda a: C("Some", K(a[0][1]))}
+            ev.totokens = lambda x: (absint.fields_of(x)["ident"][1] if x[0] == "ctor" and x[1] == "Key" else None)
+            known = {"type_ident": TOK("TypeI"), "parent_ident": C("None"), "enum_ident": TOK("Locale"), "translation_unit_enum_ident": TOK("Units"), "locales": L(*[loc(n_, k_) for n_, k_ in locs]),
+                     "keys": L(), "key_path": A("kp"), "interpolate_display": ("bool", False), "namespace_name": C("None"), "translations_uri": C("Some", S("i18n/{locale}.json"))}
+            missing = [p_ for p_ in fn.params() if p_ not in known]
+            if missing:
+                raise absint.Unknown("create_locale_type_inner has parameters the model does not know: %s" % missing)
+            got = ev.run_fn(fn, [known[p_] for p_ in fn.params()])
+            if isinstance(got, str) or got[0] != "tok":
+                raise absint.Unknown("create_locale_type_inner (%s): %s" % (label, got if isinstance(got, str) else absint.fmt(got)[:80]))
+            txt = re.sub(r"\s+", " ", got[1]).replace("pt-BR", "pt_BR")
+            nreg = txt.count("register ()")
+            bad = None
+            for n_, k_ in locs:
+                li = n_.replace("-", "_")
+                ty = "[&' static str ; %d]" % k_ if "csr" not in feats else "[Box < str >; %d]" % k_
+                aw = " . await" if "csr" in feats else ""
+                m_acc = re.search(r"pub (?:const |async )?fn __get_%s_translations__ \(\) -> &' static %s \{(.*?)\}" % (li, re.escape(ty)), txt)
+                if not m_acc or m_acc.group(1).strip() != "TypeI_%s :: get_translations ()%s" % (li, aw):
+                    bad = bad or ("accessor-body", "the generated table accessor of `%s` is `%s`: it must only forward to its own unit's get_translations()" % (n_, m_acc.group(1).strip()[:160] if m_acc else "not found"))
+                m_get = re.search(r"impl TypeI_%s \{pub (?:const |async )?fn get_translations \(\) -> &' static %s \{(.*?)\}" % (li, re.escape(ty)), txt)
+                body = m_get.group(1).strip() if m_get else None
+                want = {"baked": "%s :: STRINGS" % TU, "dynamic_load + ssr": "%s :: register () ; %s :: STRINGS" % (TU, TU), "dynamic_load + csr": "%s :: request_strings () . await" % TU}[label]
+                if (body or "").replace(" ", "") != want.replace(" ", ""):
+                    bad = bad or ("register", "the generated get_translations of `%s` is `%s`, expected `%s`" % (n_, (body or "not found")[:200], want))
+            if nreg != (len(locs) if label == "dynamic_load + ssr" else 0):
+                bad = bad or ("branch", "`register()` is generated %d time(s) for %d units in the %s configuration (expected: once per unit with dynamic_load + ssr, never otherwise)" % (nreg, len(locs), label))
+            if bad:
+                r.viol("R2:template#%s" % bad[0], "[%s] %s" % (label, bad[1]), file=fn.file, line=fn.line)
+                return
+        r.inst("generated get_translations() (dynamic_load+ssr)", "register(); then STRINGS - the unit registers itself when (and only when) its table is read; never generated in the other configurations")
+        r.inst("generated table accessors", "2 locales x 3 configurations: each accessor only forwards to its own unit's get_translations()")
+    except absint.Unknown as u:
+        r.viol("R2:template#undecided", "create_locale_type_inner cannot be interpreted on the current code (%s): not decided (fail closed)" % str(u)[:240], file=fn.file, line=fn.line)
 
 
 def r3_always(ctx):
